@@ -66,6 +66,9 @@ def make_cases(ctx):
                 reps = ctx.scale(1, 4) if m == 3 else ctx.scale(1, 2)
                 for _ in range(reps):
                     cases.append({'op': name, 'kind': kind, 'm': m, 'no_prss': np_, 'seed': rng.randrange(1 << 30)})
+    # one directed input per OPEN known finding, and the regression inputs of fixed defects
+    for name in sorted(ops.DIRECTED):
+        cases.append({'op': name, 'kind': ops.DIRECTED[name]['kinds'][0], 'm': 3, 'no_prss': name.startswith('x_fixed'), 'seed': 1})
     # 2. random extra cases, weighted towards m = 3
     names = sorted(ops.OPS)
     for _ in range(ctx.scale(500, 6000)):
